@@ -28,3 +28,10 @@ PROPS["C02"] = dict(
     stages=[dict(name="planted", target="solve", x=dict(prop="C02"),
                  quick=dict(cases=250, maxsize=70), thorough=dict(cases=15000, maxsize=100))],
 )
+
+
+# drop-in property specifications: props.d/*.py each define PROPS entries via  PROPS["Cxx"] = dict(...)
+import glob as _glob
+import os as _os
+for _f in sorted(_glob.glob(_os.path.join(_os.path.dirname(_os.path.abspath(__file__)), "props.d", "*.py"))):
+    exec(compile(open(_f).read(), _f, "exec"), {"PROPS": PROPS})
